@@ -120,6 +120,37 @@ func (e *CodecValErr) FromJSONRPCError(j jsonrpc.JSONRPCError) error {
 	return nil
 }
 
+// BothErr implements json.Marshaler/Unmarshaler AND RPCErrorCodec; the codec form takes precedence on both sides.
+type BothErr struct {
+	Msg   string
+	Extra string
+}
+
+func (e *BothErr) Error() string { return e.Msg }
+func (e *BothErr) MarshalJSON() ([]byte, error) {
+	return json.Marshal(map[string]string{"meta_msg": e.Msg})
+}
+func (e *BothErr) UnmarshalJSON(b []byte) error {
+	var m map[string]string
+	if err := json.Unmarshal(b, &m); err != nil {
+		return err
+	}
+	e.Msg = "from-meta:" + m["meta_msg"]
+	return nil
+}
+func (e *BothErr) ToJSONRPCError() (jsonrpc.JSONRPCError, error) {
+	return jsonrpc.JSONRPCError{Code: 10, Message: e.Msg, Data: map[string]interface{}{"extra": e.Extra}}, nil
+}
+func (e *BothErr) FromJSONRPCError(j jsonrpc.JSONRPCError) error {
+	d, ok := j.Data.(map[string]interface{})
+	if !ok {
+		return errors.New("BothErr: data missing")
+	}
+	x, _ := d["extra"].(string)
+	e.Msg, e.Extra = j.Message, x
+	return nil
+}
+
 type FailMetaErr struct{ Msg string }
 
 func (e *FailMetaErr) Error() string                { return e.Msg }
@@ -153,6 +184,7 @@ var c11Regs = []errReg{
 	{7, new(*FailMetaErr), "failmeta"},
 	{8, new(*FailCodecErr), "failcodec"},
 	{9, new(CodecValErr), "codecval"},
+	{10, new(*BothErr), "both"},
 }
 
 func c11Table(name string, server bool) *jsonrpc.Errors {
@@ -311,6 +343,8 @@ func (c c11Case) build() error {
 		return e
 	case "codecval":
 		return CodecValErr{Msg: c.Msg}
+	case "both":
+		return &BothErr{Msg: c.Msg, Extra: "x-" + c.Msg}
 	case "failmeta":
 		return &FailMetaErr{c.Msg}
 	case "failcodec":
@@ -395,12 +429,15 @@ func (e *c11Env) run(c c11Case) *Violation {
 	if c.Kind == "failcodec" {
 		wireCode = 8
 	}
+	if c.Kind == "both" {
+		wireCode = 10 // supplied by the codec form
+	}
 	clientKnowsCode := false
 	switch c.Table {
 	case "same", "client-only", "swapped":
-		clientKnowsCode = wireCode >= 2 && wireCode <= 9 || wireCode == -1111111
+		clientKnowsCode = wireCode >= 2 && wireCode <= 10 || wireCode == -1111111
 	case "disjoint":
-		clientKnowsCode = wireCode >= 12 && wireCode <= 19 || wireCode == -1111111
+		clientKnowsCode = wireCode >= 12 && wireCode <= 20 || wireCode == -1111111
 	}
 
 	generic, isGeneric := got.(*jsonrpc.JSONRPCError)
@@ -417,7 +454,7 @@ func (e *c11Env) run(c c11Case) *Violation {
 		}
 		return nil
 	}
-	if c.Table != "same" && !(c.Table == "client-only" && (c.Kind == "codec" || c.Kind == "failcodec")) {
+	if c.Table != "same" && !(c.Table == "client-only" && (c.Kind == "codec" || c.Kind == "failcodec" || c.Kind == "both")) {
 		return nil // mismatched tables: only {non-nil, zero value, no panic}
 	}
 	_ = clientHas
@@ -446,6 +483,10 @@ func (e *c11Env) run(c c11Case) *Violation {
 		if string(a) != string(b) {
 			return violf("meta-content-changed", "marshalled content changed: sent %s, received %s", a, b)
 		}
+	case "both":
+		if g := got.(*BothErr); g.Msg != c.Msg || g.Extra != "x-"+c.Msg {
+			return violf("codec-content-changed", "error implementing both forms: sent {Msg:%q Extra:%q} through its codec, received %+v", c.Msg, "x-"+c.Msg, *g)
+		}
 	case "codecval":
 		if g := got.(CodecValErr); g.Msg != c.Msg || g.Code != 9 {
 			return violf("codec-content-changed", "value-registered codec error: sent message %q under code 9, received %+v", c.Msg, g)
@@ -467,7 +508,7 @@ func isNilInside(err error) bool {
 	return v.Kind() == reflect.Ptr && v.IsNil()
 }
 
-var c11Kinds = []string{"nil", "plain", "plainptr", "ptrplain", "meta", "metaval", "codec", "codecval", "failmeta", "failcodec", "stdlib", "wrapped"}
+var c11Kinds = []string{"nil", "plain", "plainptr", "ptrplain", "meta", "metaval", "codec", "codecval", "both", "failmeta", "failcodec", "stdlib", "wrapped"}
 
 func genC11(t *rapid.T) c11Case {
 	msg, _ := genString(t, "msg")
